@@ -36,8 +36,14 @@ inductive PropVal (F : Type) where
 /-- what `set_properties` raises -/
 def progErr : Err := .other "ProgrammingError"
 
+/-- `str.replace('$', unit)` on the characters (structural: the kernel can run it) -/
+def substChars (unit : List Char) : List Char → List Char
+  | [] => []
+  | c :: cs => if c = '$' then unit ++ substChars unit cs else c :: substChars unit cs
+
 /-- `self.unit.replace('$', unit)` when `'$' in self.unit` -/
-def substUnit (unit u : String) : String := if u.toList.contains '$' then u.replace "$" unit else u
+def substUnit (unit u : String) : String :=
+  if u.toList.contains '$' then String.ofList (substChars unit.toList u.toList) else u
 
 mutual
 /-- `dt.set_main_unit(unit)` -/
